@@ -60,3 +60,27 @@ func Harness_C10_shardStrategies() {
 	v.Assert("C10.shard.deterministic", s2 == s && ok2 == ok)
 	v.Reach("C10.shard.end")
 }
+
+// The API reads a metric from the shard the agent wrote it to: for an arbitrary 32-bit metric id
+// (negative built-in ids included), fixed key 0 or arbitrary 1..65536, fixed shard number arbitrary,
+// strategies fixed / by metric id, shard count from the list: MetricMetaValue.Shard (API side) equals
+// sharding.Shard (agent side), and for the by-metric-id strategy it is a valid index below the count.
+func Harness_C10_api_shard_agrees_with_agent() {
+	meta := &format.MetricMetaValue{MetricID: v.NondetI32()}
+	if v.NondetBool() {
+		meta.ShardFixedKey = v.NondetU32Range(1, 65536)
+	}
+	meta.ShardNum = v.NondetU32Range(0, 65535)
+	meta.ShardStrategy = []string{format.ShardFixed, format.ShardByMetricID}[v.Choice(2)]
+	n := []uint32{1, 2, 3, 5, 16, 18, 1000, 65535}[v.Choice(8)]
+	key := &data_model.Key{Metric: meta.MetricID}
+	agentShard, ok := Shard(key, meta, n, nil)
+	v.Assert("C10.api.agent_shards_these_strategies", ok)
+	apiShard := meta.Shard(int(n))
+	v.Assert("C10.api.same_shard_as_the_agent", apiShard >= 0 && uint32(apiShard) == agentShard)
+	if meta.ShardFixedKey == 0 && meta.ShardStrategy == format.ShardByMetricID {
+		v.Assert("C10.api.by_metric_id_in_range", apiShard < int(n))
+		v.Reach("C10.api.by_metric_id")
+	}
+	v.Reach("C10.api.end")
+}
